@@ -17,6 +17,7 @@ import (
 	"os"
 	"os/exec"
 	"path/filepath"
+	"runtime"
 	"sort"
 	"strconv"
 	"strings"
@@ -523,7 +524,10 @@ func osFaults(r *evid.Run) {
 					got, _ := wrap.Snapshot(ctx, dest)
 					exp := seam.Expect(s.Files)
 					for p, v := range got {
-						if strings.Contains(filepath.Base(p), ".tmp") {
+						if strings.HasPrefix(filepath.Base(p), ".tmp") {
+							// the staging object of the failed atomic put is still there: a new object was left behind
+							r.Violate("atomic-leftover/"+seam.Name+"/"+c.Label,
+								fmt.Sprintf("%s: after failed %s #%d the staging object %q (%d bytes) is left behind in the bucket", seam.Name, c.Label, c.K, p, len(v)), c)
 							continue
 						}
 						if want, ok := exp[p]; !ok || want != v {
@@ -565,6 +569,8 @@ func doAtomicPut(ctx context.Context, b storage.ReadWriteBucket, size int) error
 
 func killWorker(args []string) int {
 	// args: dir size killAt
+	// all syscalls of the put come from one OS thread, so "the K-th file syscall" is well defined under strace
+	runtime.LockOSThread()
 	hook.Install()
 	dir := args[0]
 	size, _ := strconv.Atoi(args[1])
@@ -685,6 +691,7 @@ func atomicKill(r *evid.Run) {
 	}
 	r.Set("atomic_put_kill_points", kills)
 	r.Set("atomic_put_observations", observations)
+	syscallKills(r, scratch, self)
 	_ = json.Marshal
 	_ = io.EOF
 }
@@ -697,4 +704,72 @@ func bigContent(n int) string {
 		fmt.Fprintf(&b, "%07d|", i)
 	}
 	return b.String()[:n]
+}
+
+// syscallKills kills the putting process at every file-related system call (strace signal injection:
+// SIGKILL on entering the K-th of the process's file/write/close syscalls), i.e. at every instant at
+// which the directory can change, independent of where the hook points are.
+func syscallKills(r *evid.Run, scratch, self string) {
+	strace, err := exec.LookPath("strace")
+	if err != nil {
+		r.Set("atomic_put_syscall_kill_points", "strace not available")
+		return
+	}
+	old := "OLD-CONTENT"
+	sizes := []int{2}
+	if !r.Quick() {
+		sizes = []int{0, 2, 70 * 1024}
+	}
+	total := 0
+	for _, overwrite := range []bool{true, false} {
+		for _, size := range sizes {
+			newContent := string(atomicPayload(size))
+			// strace keeps one invocation counter per system call, so the enumeration is over
+			// (system call, K-th invocation) for every call that can touch the directory.
+			for _, sc := range []string{"openat", "write", "pwrite64", "close", "renameat", "renameat2", "rename", "unlinkat", "unlink", "linkat", "mkdirat", "newfstatat", "ftruncate", "fsync", "fdatasync"} {
+				for k := 1; k <= 200; k++ {
+					if r.Expired() {
+						r.Incomplete("deadline in syscallKills")
+						return
+					}
+					dir := filepath.Join(scratch, fmt.Sprintf("sk-%v-%d-%s-%d", overwrite, size, sc, k))
+					_ = os.MkdirAll(filepath.Join(dir, "d"), 0o755)
+					if overwrite {
+						_ = os.WriteFile(filepath.Join(dir, "d", "obj.bin"), []byte(old), 0o644)
+					}
+					cmd := exec.Command(strace, "-f", "-qq", "-o", "/dev/null", "-e", "trace="+sc,
+						"-e", fmt.Sprintf("inject=%s:signal=SIGKILL:when=%d", sc, k),
+						self, "worker", "c15kill", dir, strconv.Itoa(size), "-1")
+					out, err := cmd.CombinedOutput()
+					kc := killCase{overwrite, size, k, "syscall " + sc}
+					if err == nil && strings.Contains(string(out), "COMPLETED") {
+						os.RemoveAll(dir)
+						break // this call is invoked fewer than k times
+					}
+					if strings.Contains(string(out), "invalid system call") || strings.Contains(string(out), "strace:") && !strings.Contains(string(out), "killed") && err != nil && len(out) > 0 && !strings.Contains(string(out), "COMPLETED") && strings.Contains(string(out), "invalid") {
+						os.RemoveAll(dir)
+						break // not a system call of this architecture
+					}
+					total++
+					r.Eval(1)
+					r.Distinct(fmt.Sprintf("syscall-kill|%v", kc))
+					data, rerr := os.ReadFile(filepath.Join(dir, "d", "obj.bin"))
+					switch {
+					case rerr != nil && os.IsNotExist(rerr):
+						if overwrite {
+							r.Violate("atomic/vanished/syscall-kill", fmt.Sprintf("after SIGKILL at invocation #%d of %s during an atomic overwrite the object does not exist any more (neither previous nor new content)", k, sc), kc)
+						}
+					case rerr != nil:
+						r.Incomplete("observe: " + rerr.Error())
+					case overwrite && string(data) == old:
+					case string(data) == newContent:
+					default:
+						r.Violate("atomic/partial-visible/syscall-kill", fmt.Sprintf("after SIGKILL at invocation #%d of %s the object holds %d bytes that are neither the previous nor the complete new content", k, sc, len(data)), kc)
+					}
+					os.RemoveAll(dir)
+				}
+			}
+		}
+	}
+	r.Set("atomic_put_syscall_kill_points", total)
 }
